@@ -269,9 +269,8 @@ Section Laws.
   Proof.
     intros e d c I v P. simpl in I.
     repeat (destruct I as [I|I]; [injection I as <- <- <-|]); try contradiction; simpl in P; simpl cres.
-    all: try (eexists; split; reflexivity).
-    - (* Copy / IfNotNil *) exists v; split; [reflexivity|]. simpl. destruct v; reflexivity.
-    - (* SeedOrHash / IfNotNil *) exists v; split; [destruct v; try reflexivity; congruence|]. simpl. destruct v; try reflexivity; congruence.
+    all: try (exists v; split; destruct v; reflexivity).
+    - (* SeedOrHash / IfNotNil *) exists v; split; destruct v; try reflexivity; congruence.
     - destruct P as [b [-> Hb]]. simpl. eexists; split; [reflexivity|]. simpl. rewrite hex_roundtrip by auto. reflexivity.
     - destruct P as [b [-> Hb]]. simpl. eexists; split; [reflexivity|]. simpl. rewrite hex_roundtrip by auto. reflexivity.
     - destruct P as [b [-> Hb]]. simpl. eexists; split; [reflexivity|]. simpl. rewrite hex_roundtrip by auto. reflexivity.
@@ -398,16 +397,23 @@ Section Ext.
       unfold nestv. destruct x; try reflexivity. rewrite H by (simpl; auto). reflexivity.
   Qed.
 
+  Lemma sem_step_ext : forall p (k k' : val -> option val) v,
+    (forall w, k w = k' w) -> (forall w, sem dur_str parse_dur f p w = sem dur_str parse_dur g p w) ->
+    sem_step dur_str parse_dur f p k v = sem_step dur_str parse_dur g p k' v.
+  Proof.
+    intros p k k' v Hk Hs. unfold sem_step.
+    destruct v; try reflexivity; destruct p; rewrite ?Hs; rewrite ?Hk;
+      try reflexivity;
+      try (match goal with |- match ?x with _ => _ end = _ => destruct x end; rewrite ?Hk; reflexivity).
+  Qed.
+
   Lemma sem_seq_ext : forall ops v, (forall m, In m (flat_map prim_names ops) -> forall r, f m r = g m r) ->
     sem_seq dur_str parse_dur f ops v = sem_seq dur_str parse_dur g ops v.
   Proof.
     induction ops as [|p ops]; simpl; intros v H; auto.
-    assert (Hp : forall m, In m (prim_names p) -> forall r, f m r = g m r) by (intros; apply H; apply in_or_app; auto).
-    assert (Ho : forall m, In m (flat_map prim_names ops) -> forall r, f m r = g m r) by (intros; apply H; apply in_or_app; auto).
-    destruct p; try (rewrite (sem_ext _ _ Hp); destruct (sem dur_str parse_dur g _ v); [apply IHops; exact Ho | reflexivity]).
-    - destruct (is_empty_val v); [reflexivity | apply IHops; exact Ho].
-    - destruct v; try reflexivity; apply IHops; exact Ho.
-    - reflexivity.
+    apply sem_step_ext.
+    - intros w. apply IHops. intros; apply H; apply in_or_app; auto.
+    - intros w. apply sem_ext. intros; apply H; apply in_or_app; auto.
   Qed.
 
   Lemma apply_ext : forall d r, (forall m, In m (nested_names (m_entries d)) -> forall r, f m r = g m r) ->
